@@ -1,12 +1,16 @@
 """C19 — every pure helper of xslices, xsort, xmaps, xmath, xerrors and xmath/xrand returns what its
 documentation specifies (results, in-place/aliasing effects, panics); xrand: structure of samples."""
+import json
 import os
 import re
+import sys
 
 import vlib
-from pure_common import SPECS
+from pure_common import SPECS as SPEC_CLASSES
 
 PROP_FILES = ["C19"]
+# tag -> (spec, harness module, runner executable)
+SPECS = dict((cls.package, (cls(), "harness_pure", "runner-pure")) for cls in SPEC_CLASSES)
 
 
 def config_switches():
@@ -21,9 +25,8 @@ def run(ctx):
         ctx.violation("harness-build", "the harness does not build against the current tree: " + out[-1500:], {"build_output": out[-4000:]}, failing_input=False)
         return ctx.finish()
     ctx.coverage["model_configuration(Pure/Config.v)"] = config_switches()
-    for cls in SPECS:
-        spec = cls()
-        vlib.seq_differential(ctx, spec, exe, proofs_ok, tag=spec.package)
+    for tag, (spec, _, _) in SPECS.items():
+        vlib.seq_differential(ctx, spec, exe, proofs_ok, tag=tag)
     vlib.merge_parts(ctx, "cases = batches of independent calls of one exported function; small domain: all slices up to length 5-6 over the "
                      "alphabet {1,2,3} (0 = cleared), all predicates / all 512 binary relations / all 13 strict weak orders on the alphabet, all index and "
                      "count arguments in [-1, len+1], extreme integers, all error chains of depth <= 4, all (n,k) in [0,7]x[0,8] with seeded sources; "
@@ -35,3 +38,35 @@ def run(ctx):
     ctx.assumptions.append("Go ints are modelled as unbounded integers except in xmath.Abs and in xslices.Chunk's len(s)+chunkSize-1; lengths and index arguments are assumed < 2^62")
     vlib.handle_broken_proof(ctx)
     ctx.finish(trusted_extra=["harness_pure (separate Go module) and props/pure_common.py (argument encodings for predicates/relations/functions, direct oracles)"])
+
+
+def replay(ctx, path):
+    """Re-run the recorded case: implementation + direct oracle + model comparison. Exit 1 if it still fails."""
+    body = json.load(open(path))
+    rp = body.get("replay", {})
+    case = rp.get("case")
+    if not case:
+        print("replay: no runnable case recorded in", path)
+        sys.exit(2)
+    ok, out, exe = vlib.build_runner(module="harness_pure", exe_name="runner-pure")
+    if not ok:
+        print("replay: harness build failed:\n" + out[-2000:])
+        sys.exit(2)
+    case = dict(case, id=0)
+    obs, err = vlib.run_runner(exe, "pure", [case])
+    if err or not obs:
+        print("VIOLATION property=%s replay=%s (runner: %s)" % (ctx.pid, path, err))
+        sys.exit(1)
+    spec = SPECS[body.get("signature", "xslices:").split(":")[0] if body.get("signature", "").split(":")[0] in SPECS else "xslices"][0]
+    fails = spec.oracle(case, obs[0])
+    vlib.coq_make(["theories/Pure/Corr.vo"])
+    bad, cerr = vlib.eval_failing(spec.imports, [spec.coq_case(case, obs[0])], "check_case", "C19_replay")
+    print("case:", json.dumps(case["ops"]))
+    print("implementation:", json.dumps([o["r"] for o in obs[0]["obs"]]))
+    print("oracle failures:", fails)
+    print("model (Pure/Corr.v check_case) agrees with the implementation:", not bad and not cerr, cerr or "")
+    if fails or bad or cerr:
+        print("VIOLATION property=%s replay=%s" % (ctx.pid, path))
+        sys.exit(1)
+    print("replay: the recorded case no longer fails")
+    sys.exit(0)
